@@ -564,4 +564,12 @@ theorem gen_fixedWidthParsers (bs : Bytes) :
     Generated.sizeParse bs = takeLE bs 8 ∧ Generated.offsetParse bs = takeLE bs 8 :=
   ⟨bind_ok_eta _, bind_ok_eta _, bind_ok_eta _, bind_ok_eta _, bind_ok_eta _, bind_ok_eta _⟩
 
+/-- the index and identifier wrappers: `Idx<u8|u16|u32|u64>::parse`, `Id<u8|u16>::parse`, translated on every run, are
+    little-endian reads of 1, 2, 4, 8 and 1, 2 bytes. -/
+theorem gen_indexWrappers (bs : Bytes) :
+    Generated.idxU8Parse bs = takeLE bs 1 ∧ Generated.idxU16Parse bs = takeLE bs 2 ∧
+    Generated.idxU32Parse bs = takeLE bs 4 ∧ Generated.idxU64Parse bs = takeLE bs 8 ∧
+    Generated.idU8Parse bs = takeLE bs 1 ∧ Generated.idU16Parse bs = takeLE bs 2 :=
+  ⟨bind_ok_eta _, bind_ok_eta _, bind_ok_eta _, bind_ok_eta _, bind_ok_eta _, bind_ok_eta _⟩
+
 end Jubako
